@@ -7,6 +7,7 @@ import (
 	"fmt"
 	"math/rand/v2"
 	"os"
+	"reflect"
 	"slices"
 	"sort"
 	"strings"
@@ -72,6 +73,10 @@ type family struct {
 
 	scenarios []*scenario
 	dead      bool
+	// foreign is the transport identity of the "foreign peer" (class: host
+	// signatures must be checked against the CONTRACT's host key, not against
+	// the transport's peer key)
+	foreign types.PrivateKey
 	// part / parts split the fault table of a scenario over several labs
 	// (running in parallel); part p of n takes the table entries i with i%n == p
 	part, parts int
@@ -209,6 +214,43 @@ func (f *family) runCase(sc *scenario, variant string, muts []mutation, donor *r
 		}
 	}
 	custom := func(m *rhpmitm.Msg, mu mutation, seen *recorded) bool {
+		if mu.Op == "foreign-peer" {
+			// the peer ran the exchange correctly (the honest server did) but
+			// countersigns with ITS transport key: every host signature in the
+			// message is replaced by a signature of the foreign key over the very
+			// object the host signed
+			if m.Err != nil || m.Obj == nil {
+				return false
+			}
+			cs := f.lab.HostNode.CM.TipState()
+			if r := renewalThird(m); r != nil {
+				r.NewContract.HostSignature = f.foreign.SignHash(cs.ContractSigHash(r.NewContract))
+				r.HostSignature = f.foreign.SignHash(cs.RenewalSigHash(*r))
+				return true
+			}
+			switch o := m.Obj.(type) {
+			case *rhp4.RPCFormContractThirdResponse:
+				if n := len(o.TransactionSet); n > 0 && len(o.TransactionSet[n-1].FileContracts) == 1 {
+					fc := &o.TransactionSet[n-1].FileContracts[0]
+					fc.HostSignature = f.foreign.SignHash(cs.ContractSigHash(*fc))
+					return true
+				}
+				return false
+			case *rhp4.RPCLatestRevisionResponse:
+				o.Contract.HostSignature = f.foreign.SignHash(cs.ContractSigHash(o.Contract))
+				return true
+			case *rhp4.RPCSettingsResponse:
+				o.Settings.Prices.Signature = f.foreign.SignHash(o.Settings.Prices.SigHash())
+				return true
+			}
+			fv := reflect.ValueOf(m.Obj).Elem().FieldByName("HostSignature")
+			_, rev, ok := f.lab.Contractor.LastRevision()
+			if !fv.IsValid() || !ok {
+				return false
+			}
+			fv.Set(reflect.ValueOf(f.foreign.SignHash(cs.ContractSigHash(rev))))
+			return true
+		}
 		if mu.Op == "forge-sig" {
 			if ex.forge == nil {
 				return false
@@ -240,6 +282,11 @@ func (f *family) runCase(sc *scenario, variant string, muts []mutation, donor *r
 		return false
 	}
 	lenientCase := len(muts) > 0 && strings.HasPrefix(muts[0].Op, "lenient")
+	foreignCase := len(muts) > 0 && strings.HasPrefix(muts[0].Op, "foreign-")
+	if foreignCase {
+		f.lab.T.SetPeerKey(f.foreign.PublicKey())
+		defer f.lab.T.SetPeerKey(f.lab.HostKey.PublicKey())
+	}
 	dialsBefore, _ := f.lab.T.Dials()
 	f.lab.T.SetHook(faultHook(muts, donor, custom, ap))
 	out := monitoredCall(deadline, ex.call)
@@ -280,8 +327,22 @@ func (f *family) runCase(sc *scenario, variant string, muts []mutation, donor *r
 			fmt.Printf("DEBUG %s %s/%s dialed=%v changed=%d err=%v panic=%v\n", muts[0].Op, sc.rpc, variant, dialsAfter != dialsBefore, changed, out.Err, out.Panic)
 		}
 	}
+	if foreignCase {
+		r.Count("foreign_peer_cases:"+sc.rpc, 1)
+		r.Distinct(cse.sig())
+		r.SetAdd("fault_ops", muts[0].Op)
+		if out.Err == nil && out.Panic == nil {
+			r.Count("foreign_peer:client_success", 1)
+			if muts[0].Op == "foreign-peer" && changed > 0 {
+				r.Count("foreign_peer:success_with_foreign_signature_delivered", 1)
+			}
+		} else {
+			r.Count("foreign_peer:client_error", 1)
+		}
+	}
 	switch {
 	case lenientCase && hit == 0:
+	case foreignCase && changed == 0:
 	case hit == 0:
 		r.Count("fault_site_not_reached", 1)
 	case changed > 0:
@@ -403,6 +464,29 @@ func (f *family) run() {
 			}
 		}
 		f.runLenient(sc)
+		f.runForeignPeer(sc)
+	}
+}
+
+// runForeignPeer runs every variant of the scenario over a transport whose
+// PeerKey() is NOT the host key of the contract: once with a peer that
+// countersigns everything with that transport key ("foreign-peer"), once with
+// the genuine host signatures ("foreign-transport").
+func (f *family) runForeignPeer(sc *scenario) {
+	if f.part != 0 {
+		return
+	}
+	for _, v := range sc.variants {
+		for _, op := range []string{"foreign-peer", "foreign-transport"} {
+			if f.dead {
+				return
+			}
+			var muts []mutation
+			for i := 0; i < sc.nHost; i++ {
+				muts = append(muts, mutation{Dir: "H", Msg: i, Op: op})
+			}
+			f.runCase(sc, v, muts, nil)
+		}
 	}
 }
 
@@ -438,7 +522,7 @@ func (f *family) runLenient(sc *scenario) {
 // ---- C10 entry ----
 
 func runC10(r *mon.Run, replay string) {
-	r.Rule("fault table = RPC x host->renter message x field (reflection walk of the typed message: every byte array, currency, integer, bool, string, time, slice (first and last element), pointer, resolution type) x operator {flip low/high bit, zero, max, +1, -1, truncate, extend, duplicate, swap neighbours, swap with the same field of another recorded exchange} plus message-level faults {RPCError injection, cut before/after, half-sent message, trailing garbage, whole message of another exchange, silent host, raw sector data flip/truncate/extend/zero} plus re-signing with the real host key after altering the signed object; plus coherent alternatives built by the man-in-the-middle with core's proof builders (valid proof for another range / leaf / root set, alone and with a forged final signature); plus a LENIENT hostile host holding the real host key: for caller parameters that are well-formed and ill-formed (free index lists with duplicates in every position pattern, out of order, out of range, empty; sector-roots ranges on an empty contract, at and beyond the end, zero length, overflowing; reads with unaligned offset / unaligned end / zero length / beyond the sector; writes of unaligned or zero length; empty / repeated / unknown append lists) it executes the request exactly as received where the honest server refuses it, builds the matching proof and countersigns, and - per request - also answers with a proof built for ANOTHER index set / range than the requested one (an in-range substitute for an out-of-range index or range, one appended root more or fewer) or with one subtree hash / leaf hash / root / accepted flag too few or too many; every client call is guarded, a panic is the violation client-panic:<rpc> - the oracle then compares the result with a reference model of the CALLER's parameters (set semantics for free, the renter-known roots for sector roots, the stored bytes for read), independent of the client's own arithmetic; the table is enumerated completely (exhaustive over the table), thorough adds PRNG double mutations; a case is non-trivial when the fault changed the bytes the renter received; oracle only when the client call returned success")
+	r.Rule("fault table = RPC x host->renter message x field (reflection walk of the typed message: every byte array, currency, integer, bool, string, time, slice (first and last element), pointer, resolution type) x operator {flip low/high bit, zero, max, +1, -1, truncate, extend, duplicate, swap neighbours, swap with the same field of another recorded exchange} plus message-level faults {RPCError injection, cut before/after, half-sent message, trailing garbage, whole message of another exchange, silent host, raw sector data flip/truncate/extend/zero} plus re-signing with the real host key after altering the signed object; plus coherent alternatives built by the man-in-the-middle with core's proof builders (valid proof for another range / leaf / root set, alone and with a forged final signature); plus a LENIENT hostile host holding the real host key: for caller parameters that are well-formed and ill-formed (free index lists with duplicates in every position pattern, out of order, out of range, empty; sector-roots ranges on an empty contract, at and beyond the end, zero length, overflowing; reads with unaligned offset / unaligned end / zero length / beyond the sector; writes of unaligned or zero length; empty / repeated / unknown append lists) it executes the request exactly as received where the honest server refuses it, builds the matching proof and countersigns, and - per request - also answers with a proof built for ANOTHER index set / range than the requested one (an in-range substitute for an out-of-range index or range, one appended root more or fewer) or with one subtree hash / leaf hash / root / accepted flag too few or too many; every client call is guarded, a panic is the violation client-panic:<rpc>; plus a FOREIGN PEER: every variant of every RPC is run over a transport whose PeerKey() is not the host key of the contract, once with a peer that runs the exchange correctly (the honest server does) but countersigns every revision / contract / renewal / price table with its transport key, once with the genuine host signatures - success must still carry a host signature valid under the CONTRACT's host key - the oracle then compares the result with a reference model of the CALLER's parameters (set semantics for free, the renter-known roots for sector roots, the stored bytes for read), independent of the client's own arithmetic; the table is enumerated completely (exhaustive over the table), thorough adds PRNG double mutations; a case is non-trivial when the fault changed the bytes the renter received; oracle only when the client call returned success")
 	r.Assume("core (rhp/v4 merkle, sighash, Revise* functions) is the trusted base for computing expected roots and successor revisions")
 	r.Assume("the in-repo server, EphemeralContractor and EphemeralSectorStore are the honest peer behind the man-in-the-middle; transports' own framing (siamux/quic) is not mutated")
 	r.Extra("exhaustive", true)
@@ -482,7 +566,7 @@ func runC10(r *mon.Run, replay string) {
 			job{buildFormFamily, p, 3})
 	}
 	vcli.Parallel(len(jobs), func(i int) {
-		f := &family{r: r, rng: r.RNG(uint64(1000 + i)), only: only, part: jobs[i].part, parts: jobs[i].parts}
+		f := &family{r: r, rng: r.RNG(uint64(1000 + i)), only: only, part: jobs[i].part, parts: jobs[i].parts, foreign: types.GeneratePrivateKey()}
 		if only != nil {
 			// a replayed case runs on one lab only
 			f.parts = 1
@@ -513,6 +597,11 @@ func runC10(r *mon.Run, replay string) {
 		r.Floor("client_returned_success", 20)
 		r.Floor("success_oracle_evaluations", 20)
 		r.Floor("returned_at_context_deadline_silent_host", 5)
+		r.Floor("foreign_peer:client_success", 20)
+		r.Floor("foreign_peer:client_error", 20)
+		for _, rpc := range []string{"fund", "replenish-accounts", "replenish-pools", "append", "free", "roots", "form", "renew", "refresh-full", "refresh-partial", "latest-revision"} {
+			r.Floor("foreign_peer_cases:"+rpc, 4)
+		}
 		r.Floor("lenient_host_cases:free", 100)
 		r.Floor("lenient_host_cases:roots", 60)
 		r.Floor("lenient_host:answers_built_for_another_request", 150)
